@@ -77,7 +77,16 @@ pub fn check(_ctx: &Ctx, input: &Input) -> CaseResult {
                 use walrus::*;
                 let a0 = m.locals.add(ValType::I32);
                 let mut fb = FunctionBuilder::new(&mut m.types, &[ValType::I32], &[ValType::I32, ValType::I64]);
-                fb.func_body().local_get(a0).i64_const(7);
+                // a block whose type is a type id although its signature is
+                // simple; that type is used by nothing else
+                let bt = m.types.add(&[], &[ValType::F32]);
+                fb.func_body()
+                    .block(ir::InstrSeqType::MultiValue(bt), |b| {
+                        b.f32_const(1.5);
+                    })
+                    .drop()
+                    .local_get(a0)
+                    .i64_const(7);
                 let f = fb.finish(vec![a0], &mut m.funcs);
                 m.exports.add("verif_built", f);
             });
